@@ -15,6 +15,7 @@ class UnetModel2dConfig(ModelConfig):
     dropout_probability: float = 0.0
 
 
+@dataclass
 class NormUnetModel2dConfig(ModelConfig):
     in_channels: int = 2
     out_channels: int = 2
